@@ -206,20 +206,35 @@ def roundNE (p : Nat) (n : Nat) : Nat × Nat :=
 /-- the natural number denoted by a rounding result -/
 def roundVal (me : Nat × Nat) : Nat := me.1 * 2 ^ me.2
 
+/-- normalised significand of `m * 2^e` (`0 < m ≤ 2^p`): exactly `p` significant bits -/
+def normSig (p m : Nat) : Nat :=
+  if bitLen m ≤ p then m * 2 ^ (p - bitLen m) else m / 2 ^ (bitLen m - p)
+
+/-- the exponent that goes with `normSig`: `m * 2^e = normSig p m * 2^(normExp p m e)` -/
+def normExp (p m e : Nat) : Int :=
+  if bitLen m ≤ p then (e : Int) - ((p - bitLen m : Nat) : Int)
+  else (e : Int) + ((bitLen m - p : Nat) : Int)
+
 /-- IEEE-754 bit pattern (sign 0) of the non-negative value `m * 2^e` that fits in `p`
-    significant bits (`m ≤ 2^p`); `ebits` exponent bits.  No subnormals/infinities arise for
-    `n < 2^64` (`2^64 <` the largest finite `f32`). -/
+    significant bits (`m ≤ 2^p`); `ebits` exponent bits: biased exponent field above the
+    `p - 1` fraction bits (hidden leading one).  No subnormals/infinities arise for `n < 2^64`
+    (`2^64 <` the largest finite `f32`). -/
 def floatBits (p ebits : Nat) (me : Nat × Nat) : Nat :=
-  let (m, e) := me
+  let m := me.1
+  let e := me.2
   if m = 0 then 0
   else
-    let l := m.log2 + 1                               -- bit length of m, ≤ p + 1
-    -- normalise to exactly p significant bits: value = m' * 2^e'
-    let (m', e') : Nat × Int := if l ≤ p then (m * 2 ^ (p - l), (e : Int) - ((p - l : Nat) : Int))
-                                 else (m / 2 ^ (l - p), (e : Int) + ((l - p : Nat) : Int))
     let bias : Int := 2 ^ (ebits - 1) - 1
-    let biased : Int := e' + (p - 1 : Nat) + bias
-    biased.toNat * 2 ^ (p - 1) + (m' - 2 ^ (p - 1))
+    (normExp p m e + ((p - 1 : Nat) : Int) + bias).toNat * 2 ^ (p - 1) + (normSig p m - 2 ^ (p - 1))
+
+/-- the (significand, exponent) a finite non-negative IEEE-754 bit pattern denotes
+    (value = significand * 2^exponent); exponent field `0` is zero / subnormal -/
+def floatDecode (p ebits : Nat) (bits : Nat) : Nat × Int :=
+  let E := bits / 2 ^ (p - 1)
+  let frac := bits % 2 ^ (p - 1)
+  let bias : Int := 2 ^ (ebits - 1) - 1
+  if E = 0 then (frac, 1 - bias - ((p - 1 : Nat) : Int))
+  else (2 ^ (p - 1) + frac, (E : Int) - bias - ((p - 1 : Nat) : Int))
 
 /-- `from_usize_float!`: `Some(n as $T)` — always succeeds; the result is given as the pair
     (rounded value `m * 2^e`, IEEE bit pattern) -/
